@@ -1,7 +1,7 @@
 (* C12 - Optimal partitioning returns a global optimum for the requested direction. *)
 From Coq Require Import List Arith QArith Bool Lia Lqa.
 Import ListNotations.
-From TL Require Import Model.Partition Proofs.Partition_opt Proofs.Partition_dp Proofs.Partition_main Proofs.Partition_seg Proofs.Refuted.
+From TL Require Import Model.Partition Proofs.Partition_opt Proofs.Partition_dp Proofs.Partition_main Proofs.Partition_seg Proofs.Partition_stops Proofs.Refuted.
 Open Scope Q_scope.
 
 (* For every N >= 2, every cost table and both directions: the result is l ++ [N-1] with l a strictly increasing
@@ -23,6 +23,20 @@ Theorem C12_segmentation_optimal (m : bool) (n : nat) (cost : nat -> nat -> Q) :
     forall l', starts 0 (n - 2) l' -> dle m (seg_cost cost r) (seg_cost cost (l' ++ [(n - 2)%nat])).
 Proof. exact (optimal_segmentation_correct m n cost). Qed.
 Print Assumptions C12_segmentation_optimal.
+
+(* Stop detection: findStopsGlobal builds the reward matrix "(j - i)^2 when the circle enclosing the fixes i .. j-1 is smaller than the diameter and
+   they span more than the duration, 0 otherwise" and maximises. With the size of the enclosing circle and the time span as parameters (the geometry
+   routine is not modelled), the list returned maximises the sum of the rewards of its segments, and a rewarded segment is a stop as documented. *)
+Theorem C12_stops_optimal (circle span : nat -> nat -> Q) (diameter duration : Q) (n : nat) : (3 <= n)%nat ->
+  let r := find_stops_partition circle span diameter duration n in
+  exists l, r = l ++ [(n - 2)%nat] /\ starts 0 (n - 2) l /\
+    forall l', starts 0 (n - 2) l' ->
+      seg_cost (reward circle span diameter duration) (l' ++ [(n - 2)%nat]) <= seg_cost (reward circle span diameter duration) r.
+Proof. exact (find_stops_optimal circle span diameter duration n). Qed.
+Print Assumptions C12_stops_optimal.
+Theorem C12_rewarded_is_stop (circle span : nat -> nat -> Q) (diameter duration : Q) a b :
+  0 < reward circle span diameter duration a b -> circle a b < diameter /\ duration < span a b.
+Proof. exact (reward_pos_is_stop circle span diameter duration a b). Qed.
 
 (* The rule of the code before its repair (both tests read the mode *constants*, so it always maximised) refutes the
    statement for minimisation: kept as the record of the finding. *)
